@@ -62,6 +62,15 @@ def run(chk):
         if rng.random() < 0.3:
             src = rng.choice(['DEFINT A-Z\n', 'DEFLNG I-N\nDEFDBL A-C\n', 'DEFSTR S\nDEFSNG T-Z\n']) + src
         targets.append({'src': src, 'O': i % 3, 'g': bool((i // 3) % 2), 'inputs': inputs})
+    # name collisions across compilations: the same TYPE / SUB / FUNCTION / CONST / label / SHARED name used differently
+    for j in range(chk.n(5, 12)):
+        nf = 1 + (j % 5)
+        fields = ''.join(f'  f{k} AS {rng.choice(["INTEGER", "LONG", "DOUBLE", "STRING"])}\n' for k in range(nf))
+        src = (f'TYPE rec\n{fields}END TYPE\nTYPE outer\n  a AS rec\n  z AS INTEGER\nEND TYPE\nCONST k = {j}\nDIM SHARED sh{j % 2}\n'
+               f'DIM p AS rec, q AS INTEGER, o AS outer, arr(2) AS rec\nq = {j + 5}: o.z = {j}: sh{j % 2} = {j}\n'
+               f'CALL w({j})\nPRINT q; o.z; k; sh{j % 2}; fn%({j})\nGOTO done\ndone: PRINT "d{j}"\nEND\n'
+               f'SUB w (n%)\n  PRINT "w{j}"; n% + {j}\nEND SUB\nFUNCTION fn% (n%)\n  fn% = n% * {j + 1}\nEND FUNCTION\n')
+        targets.append({'src': src, 'O': j % 3, 'g': bool(j % 2), 'inputs': []})
     hist_pool = [t['src'] for t in targets] + FAILING
     from concurrent.futures import ThreadPoolExecutor
     pool = ThreadPoolExecutor(max_workers=8)
